@@ -54,6 +54,15 @@ def Op.penEvent : Op → Bool
   | .pset .. | .pdesc .. | .pcopy .. | .pcopyattr .. | .pbind .. | .punbind .. => true
   | _ => false
 
+/-- What a handler may do without freeing anything: every action except `tickit_window_unref`. -/
+def Act.keeps : Act → Bool
+  | .unref _ => false
+  | _ => true
+
+/-- Every handler bound in this state frees nothing. -/
+def KeepingHandlers (st : St) : Prop :=
+  ∀ (i : Nat) (b : Bind), b ∈ (getX st i).binds → ∀ a ∈ b.acts, a.keeps = true
+
 /-! ## observation text (must equal what harness/life.c prints) -/
 
 def showIds (l : List Id) : String := ",".intercalate (l.map toString)
